@@ -16,7 +16,7 @@ def bbox_intersections(seta, setb):
 
     def add_to(o, bounds, lst):
         lst.append((o, bounds))
-        if l == active_a:
+        if lst is active_a:
             other = active_b
         else:
             other = active_a
